@@ -159,6 +159,12 @@ def RegSound (defn : N → Option P) (reg : List (N × P)) : Prop := ∀ p ∈ r
 
 def regKeys (reg : List (N × P)) : List N := reg.map (·.1)
 
+/-- a world whose only process-wide cell is the plug-in registry; the one operation "get `n`" returns what
+`plugins.get` returns and leaves the instance alone -/
+def regSem {Loc Path Bytes : Type} (defn : N → Option P) (closure : N → List N) :
+    Sem Loc Unit (List (N × P)) Path Bytes N (Option P) :=
+  fun n fs l s => ⟨(regGet defn closure (s ()) n).1, l, fun _ => (regGet defn closure (s ()) n).2, fs⟩
+
 end registry
 
 /-! ## 2c. The function-level list of `_parser_rinex.parser_cache`
